@@ -2,6 +2,8 @@ SPEC = {
     "bins": [
         {"name": "c11", "pkg": "./zz_verif/c11", "run": "^TestC11Seq", "shards": {"quick": 1, "thorough": 8}},
         {"name": "c11conc", "pkg": "./zz_verif/c11", "run": "^TestC11Conc", "race": True, "shards": {"quick": 4, "thorough": 16}},
+        # the portable build has its own shared state (scalar fallbacks of the SIMD code): same plans under -tags purego
+        {"name": "c11concpg", "pkg": "./zz_verif/c11", "run": "^TestC11Conc", "race": True, "configs": [{"name": "purego", "tags": ["purego"]}], "shards": {"quick": 4, "thorough": 8}},
         {"name": "c11cold", "pkg": "./zz_verif/c11cold", "run": "^TestC11Cold", "race": True, "shards": {"quick": 8, "thorough": 16}},
     ],
     "rule": "(a) sequential histories: rapid draws call sequences over a pool of library objects (group elements/scalars of the 4 groups, Goldilocks points/scalars, BLS12-381 G1/G2/scalars incl. pairings, FourQ points, "
